@@ -59,6 +59,13 @@ def evaluate(case) -> Result:
             c = w.conns[0]
             w.answer_cer(c, 2001, auth=(4,), host="peer1.example", spelled=H)
         else:
+            if case.get("prelude"):
+                # an earlier connection of the same peer that ended with a DPR (or just went away)
+                c0 = w.handshake_in("peer1.example", auth=[4], spelled=H, hbh=0x90)
+                if case["prelude"] == "dpr":
+                    w.feed_msg(c0, {"k": "DPR", "host": H, "hbh": 0x91, "e2e": 0x91})
+                w.peer_close(c0)
+                res.classes.append(f"prelude:{case['prelude']}")
             c = w.handshake_in("peer1.example", auth=[4], spelled=H)
         nc = w.node_conn_for(c)
         if nc is None or nc.state != pm.PEER_READY:
@@ -243,6 +250,7 @@ def shard_main(shard, nshards, tier, scale):
                        st.tuples(st.just("FRAG"), st.integers(1, 24)), st.tuples(st.just("FRAG"), st.integers(1, 24)))
         return {"dir": draw(st.sampled_from(["in", "out"])), "timers": timers, "seed": draw(st.integers(0, 3)),
                 "spell": draw(st.sampled_from([None, None, "Peer1.EXAMPLE"])),
+                "prelude": draw(st.sampled_from([None, None, "dpr", "close"])),
                 "events": [list(e) for e in draw(st.lists(ev, min_size=1, max_size=40))]}
 
     def body(case):
@@ -269,7 +277,7 @@ def shard_main(shard, nshards, tier, scale):
         else:
             ev += [["ADV", 1]] * delay + [["DWA"] if (idle + dwa + wake + delay) % 3 else ["DWA", 3004]] + [["ADV", 1]] * (idle + wake + 2)
         case = {"dir": d, "timers": {"idle": idle, "dwa": dwa, "wakeup": wake, "p_idle": None, "p_dwa": None},
-                "events": ev}
+                "events": ev, "prelude": [None, "dpr", "close"][(idle + dwa + wake) % 3] if d == "in" else None}
         res = evaluate(case)
         res.classes.append("systematic")
         record(rec, case, res, evaluate, "events", shrunk)
@@ -281,7 +289,7 @@ def run(tier, scale=1.0):
     rec = Recorder(PID)
     for d in hyp.pool_run(shard_main, (tier, scale)):
         rec.merge(d)
-    required = {"dwa-result:3004": 1, "dwa-result:none": 1, "identity:respelled": 1, "fragment": 1, "tx-blocked": 1, "dir:in": 1, "dir:out": 1, "episodes:2": 1, "closed-by-watchdog": 1, "peer-idle:True": 1,
+    required = {"prelude:dpr": 1, "prelude:close": 1, "dwa-result:3004": 1, "dwa-result:none": 1, "identity:respelled": 1, "fragment": 1, "tx-blocked": 1, "dir:in": 1, "dir:out": 1, "episodes:2": 1, "closed-by-watchdog": 1, "peer-idle:True": 1,
                 "peer-dwa:True": 1, "outcomes:2": 1}
     return finish(rec, tier=tier, level="exploration", rule=RULE, assumptions=ASSUME, t0=t0,
                   required_classes=required)
